@@ -8,6 +8,7 @@ import (
 	"sort"
 	"strings"
 	"sync"
+	"sync/atomic"
 	"time"
 
 	"verif/internal/gen/puppet"
@@ -155,6 +156,7 @@ func runFaultCase(e *Env, idx int, c FCase) {
 		}
 		return m
 	}
+	var watcherLeft atomic.Bool
 	for call := 0; call < c.Calls; call++ {
 		tok := h.NewToken()
 		req := &puppet.Req{Call: tok, Seq: tok, Kind: 7}
@@ -199,7 +201,14 @@ func runFaultCase(e *Env, idx int, c FCase) {
 				out = StartAsync(cl.Cfg, "Async", ctx, req, nil).Get()
 			default:
 				co := StartCorr(cl.Cfg, "Corr", ctx, req, nil)
+				top := co.Watch(c.N + 1) // a level no reply set reaches: only the call's completion releases it
 				<-co.Done()
+				co.Raw() // (synchronise with the completing publication)
+				select {
+				case <-top:
+				default:
+					watcherLeft.Store(true)
+				}
 				v, lvl, err := co.Raw()
 				out = Outcome{Err: err, Level: lvl}
 				if r, ok := v.(*puppet.Rep); ok && err == nil {
@@ -295,6 +304,10 @@ func runFaultCase(e *Env, idx int, c FCase) {
 		hi := h.Await(t, e.W+4*time.Second)
 		for _, p := range plans {
 			p.Open()
+		}
+		if watcherLeft.Load() {
+			R.Violate("watcher-left-waiting", fmt.Sprintf("Corr with failing nodes %v (%v) completed, but a goroutine waiting on Watch for a level the failure made unreachable is left waiting", F, c.Fail), map[string]any{"case": c})
+			return
 		}
 		invs := mon.Invs()
 		if hi.Verdict == h.Hung {
